@@ -357,8 +357,7 @@ class FileStoreRequestTlv(FileStoreRequestBase, AbstractTlvBase):
         )
 
     def generate_tlv(self):
-        if self.tlv is None:
-            self.tlv = self._build_tlv()
+        self.tlv = self._build_tlv()
 
     def pack(self) -> bytearray:
         self.generate_tlv()
@@ -438,8 +437,7 @@ class FileStoreResponseTlv(FileStoreRequestBase, AbstractTlvBase):
         self.filestore_msg = filestore_msg
 
     def generate_tlv(self):
-        if self.tlv is None:
-            self.tlv = self._build_tlv()
+        self.tlv = self._build_tlv()
 
     def pack(self) -> bytearray:
         self.generate_tlv()
